@@ -48,11 +48,19 @@ func branchSelectors(p *load.Prog, fd *ast.FuncDecl, conds []string, a, b string
 				}
 			}
 		}
-		if !hit || ifs.Else == nil {
+		if !hit {
 			return true
 		}
 		n++
 		ta, tb := count(ifs.Body)
+		if ifs.Else == nil {
+			// default-then-override: the signed member is read before the test and
+			// the unsigned arm replaces it
+			if tb != 0 || ta == 0 {
+				bad = append(bad, fmt.Sprintf("%s: the unsigned arm uses .%s %d times and .%s %d times", p.Pos(ifs.Pos()), a, ta, b, tb))
+			}
+			return true
+		}
 		ea, eb := count(ifs.Else)
 		if tb != 0 || ta == 0 {
 			bad = append(bad, fmt.Sprintf("%s: the unsigned arm uses .%s %d times and .%s %d times", p.Pos(ifs.Pos()), a, ta, b, tb))
@@ -252,7 +260,7 @@ func checkC15(c *core.Ctx) {
 		c.Check("R1", ev.fn+" maps & | << >> to the same Go operators", p.Pos(fd.Pos()), okOps && len(ops) == 0, fmt.Sprintf("operators without a matching arm: %v", left))
 	}
 	c.Count("signedness_sites", sites)
-	c.Floor("signedness_sites", 6)
+	c.Floor("signedness_sites", 4)
 
 	// ---- R2
 	if fd := p.FuncDecl(pkg, "bytesToOpCode"); fd != nil {
@@ -328,38 +336,95 @@ func checkC15(c *core.Ctx) {
 	// ---- R3 literal pass-through + constant formats
 	if fd := p.FuncDecl(pkg, "readConst"); fd != nil {
 		var rhs []string
-		ast.Inspect(fd.Body, func(m ast.Node) bool {
-			as, is := m.(*ast.AssignStmt)
-			if !is || len(as.Lhs) != 1 || len(as.Rhs) != 1 {
-				return true
-			}
-			sel, isSel := as.Lhs[0].(*ast.SelectorExpr)
-			if !isSel || sel.Sel.Name != "Value" {
-				return true
-			}
-			if t := info.TypeOf(sel.X); t == nil || !strings.HasSuffix(t.String(), ".Const") {
-				return true
-			}
-			if tv := info.Types[as.Rhs[0]]; tv.Value != nil {
+		// classify one expression that can become the const's Value
+		var classify func(owner *ast.FuncDecl, e ast.Expr, depth int)
+		classify = func(owner *ast.FuncDecl, e ast.Expr, depth int) {
+			e = ast.Unparen(e)
+			if tv := info.Types[e]; tv.Value != nil {
 				rhs = append(rhs, strings.Trim(tv.Value.ExactString(), `"`))
-			} else if call, isC := ast.Unparen(as.Rhs[0]).(*ast.CallExpr); isC && wire.Canon(call.Fun) == "string" && len(call.Args) == 1 {
-				// string(<token>.concrete): the literal's own text
+				return
+			}
+			if call, isC := e.(*ast.CallExpr); isC && wire.Canon(call.Fun) == "string" && len(call.Args) == 1 {
 				if cs, isS := ast.Unparen(call.Args[0]).(*ast.SelectorExpr); isS && cs.Sel.Name == "concrete" {
 					rhs = append(rhs, "string(tk.concrete)")
-				} else {
-					rhs = append(rhs, wire.Canon(as.Rhs[0]))
+					return
 				}
-			} else {
+			}
+			// a local variable with a single definition stands for that definition
+			if id, isId := e.(*ast.Ident); isId && depth < 4 {
+				obj := info.ObjectOf(id)
+				var defs []ast.Expr
+				ast.Inspect(owner.Body, func(n ast.Node) bool {
+					if as, ok := n.(*ast.AssignStmt); ok && len(as.Lhs) == len(as.Rhs) {
+						for i, l := range as.Lhs {
+							if lid, ok := l.(*ast.Ident); ok && info.ObjectOf(lid) == obj {
+								defs = append(defs, as.Rhs[i])
+							}
+						}
+					}
+					return true
+				})
+				if len(defs) == 1 {
+					classify(owner, defs[0], depth+1)
+					return
+				}
+			}
+			rhs = append(rhs, wire.Canon(e))
+		}
+		ast.Inspect(fd.Body, func(m ast.Node) bool {
+			as, is := m.(*ast.AssignStmt)
+			if !is {
+				return true
+			}
+			for i, l := range as.Lhs {
+				sel, isSel := l.(*ast.SelectorExpr)
+				if !isSel || sel.Sel.Name != "Value" {
+					continue
+				}
+				if t := info.TypeOf(sel.X); t == nil || !strings.HasSuffix(t.String(), ".Const") {
+					continue
+				}
+				if len(as.Rhs) == len(as.Lhs) {
+					classify(fd, as.Rhs[i], 0)
+					continue
+				}
+				// x.Value, … = helper(…): every i-th result the helper can return
+				if call, isC := as.Rhs[0].(*ast.CallExpr); isC && len(as.Rhs) == 1 {
+					if cal := load.Callee(info, call); cal != nil && cal.Pkg() == pkg.Types {
+						if hd := p.Decl(cal); hd != nil && hd.Body != nil {
+							ast.Inspect(hd.Body, func(k ast.Node) bool {
+								if _, isLit := k.(*ast.FuncLit); isLit {
+									return false
+								}
+								if r, isR := k.(*ast.ReturnStmt); isR && i < len(r.Results) {
+									// failing returns (non-nil error) carry no value that is kept
+									if last := r.Results[len(r.Results)-1]; wire.Canon(last) != "nil" && len(r.Results) > 1 {
+										return true
+									}
+									classify(hd, r.Results[i], 0)
+								}
+								return true
+							})
+							continue
+						}
+					}
+				}
 				rhs = append(rhs, wire.Canon(as.Rhs[0]))
 			}
 			return true
 		})
 		want := map[string]bool{"string(tk.concrete)": true, "math.Inf(1)": true, "math.Inf(-1)": true, "math.NaN()": true}
-		ok := len(rhs) == 4
+		// exactly these four sources, each at least once
+		ok := true
+		got := map[string]bool{}
 		for _, r := range rhs {
+			got[r] = true
 			if !want[r] {
 				ok = false
 			}
+		}
+		if len(got) != 4 {
+			ok = false
 		}
 		c.Check("R3", "readConst keeps the literal's text (three float specials aside)", p.Pos(fd.Pos()), ok, fmt.Sprintf("assignments to cons.Value: %v", rhs))
 		// the specials equal what impossibleGoConst recognises
@@ -452,7 +517,7 @@ func formatRules(c *core.Ctx, p *load.Prog) {
 		})
 	}
 	c.Count("constant_emit_sites", n)
-	c.Floor("constant_emit_sites", 8)
+	c.Floor("constant_emit_sites", 4)
 	// The exact formats (name = value, typed members, 0x%x) are not matched as
 	// text: R4 folds these emitters over probe schemas and compares the go/types
 	// values of what they emit with the schema's values.
